@@ -801,8 +801,24 @@ fn cmd_unit(args: &[String]) {
     for p in &unit.preludes {
         let ps = Src::load(&format!("{cdir}/{p}"));
         out.labelled(&format!("// ---- prelude {p} ----\n"), "frame");
-        let n = ps.text.len();
-        out.verbatim(&ps, 0, n);
+        // line preprocessor: `//@cfg <predicate>` guards the next line
+        let mut pos = 0usize;
+        let mut drop_next = false;
+        for line in ps.text.split_inclusive('\n') {
+            let t = line.trim();
+            let a = pos;
+            pos += line.len();
+            if let Some(pred) = t.strip_prefix("//@cfg ") {
+                let ts: TokenStream = pred.parse().unwrap_or_else(|_| die("bad //@cfg line"));
+                drop_next = !eval_cfg_tokens(ts, &feats).unwrap_or_else(|| die("unsupported //@cfg predicate"));
+                continue;
+            }
+            if drop_next {
+                drop_next = false;
+                continue;
+            }
+            out.verbatim(&ps, a, pos);
+        }
         out.text.push('\n');
     }
 
@@ -858,7 +874,7 @@ fn cmd_unit(args: &[String]) {
                     }
                     do_fn(&mut rw, &f.sig, &f.block, &src);
                     seen_fns.insert(meth.to_string());
-                    functions.push(format!("{{\"name\":{},\"file\":{},\"line0\":{},\"line1\":{}}}", jstr(meth), jstr(&unit.source), src.line_of(fs), src.line_of(src.e(f.span()))));
+                    functions.push(format!("{{\"name\":{},\"file\":{},\"line0\":{},\"line1\":{},\"loops\":{}}}", jstr(meth), jstr(&unit.source), src.line_of(fs), src.line_of(src.e(f.span())), rw.loops));
                     check_used(meth, spec, &rw.used);
                     for (k, v) in &rw.hits {
                         *hits.entry(k.clone()).or_insert(0) += v;
@@ -877,7 +893,7 @@ fn cmd_unit(args: &[String]) {
                         let (s, e) = (src.s(it.span()), src.e(it.span()));
                         do_fn(&mut rw, &f.sig, &f.block, &src);
                         seen_fns.insert(want.clone());
-                        functions.push(format!("{{\"name\":{},\"file\":{},\"line0\":{},\"line1\":{}}}", jstr(want), jstr(&unit.source), src.line_of(src.s(f.sig.span())), src.line_of(e)));
+                        functions.push(format!("{{\"name\":{},\"file\":{},\"line0\":{},\"line1\":{},\"loops\":{}}}", jstr(want), jstr(&unit.source), src.line_of(src.s(f.sig.span())), src.line_of(e), rw.loops));
                         check_used(want, spec, &rw.used);
                         for (k, v) in &rw.hits {
                             *hits.entry(k.clone()).or_insert(0) += v;
